@@ -732,6 +732,10 @@ Interpolation Perform_KDE(std::vector<DataPoint> data, double xMin, double xMax,
 			Variance += data[i].weight * pow(data[i].value - Average, 2.0) / Weight_Sum;
 		// 1.3 Bandwidth with rule-of-thumb estimator
 		bw = sqrt(Variance) * pow(4.0 / 3.0 / N_Data, 0.2);
+		// A sample without spread (one point, identical points, all the weight on one point) has no rule-of-thumb bandwidth:
+		// smooth it over one spacing of the table instead of dividing by zero below.
+		if(!(bw > 0.0))
+			bw = (xMax - xMin) / 149.0;
 	}
 
 	// Sort data:
